@@ -61,8 +61,8 @@ impl Property for C17 {
         let per = match (tier, suite.slow()) {
             (Tier::Quick, false) => 150,
             (Tier::Quick, true) => 25,
-            (Tier::Thorough, false) => 1000,
-            (Tier::Thorough, true) => 200,
+            (Tier::Thorough, false) => 4000,
+            (Tier::Thorough, true) => 500,
         };
         (0..3).map(|s| (s, per)).collect()
     }
